@@ -10,7 +10,11 @@
 (* refuses to compare values of different shapes and its Json module cannot   *)
 (* read null; the same form crosses the Go <-> TLC boundary.                  *)
 (* TLCEval(..) around function constructors: TLC builds such functions lazily *)
-(* and would re-evaluate the body at EVERY application.                       *)
+(* and would re-evaluate the body at EVERY application.  Bound identifiers in *)
+(* these modules must not collide with the VARIABLES of the modules that      *)
+(* extend them (kv, kat, kdem, kcfg, ln, stack, ...): TLC decides by NAME      *)
+(* whether a definition is constant-level, and only constant-level            *)
+(* definitions (Catalog, Supers, Subs) are evaluated once and cached.         *)
 EXTENDS Integers, Sequences, FiniteSets, TLC
 
 \* ------------------------------------------------------------------ helpers
@@ -21,9 +25,9 @@ RECURSIVE Flat(_)
 Flat(ss) == IF ss = <<>> THEN <<>> ELSE Head(ss) \o Flat(Tail(ss))
 RECURSIVE Dedup(_)
 Dedup(s) == IF s = <<>> THEN <<>>
-            ELSE LET r == Dedup(SubSeq(s, 1, Len(s) - 1))
-                     l == s[Len(s)]
-                 IN IF Has(r, l) THEN r ELSE Append(r, l)
+            ELSE LET front == Dedup(SubSeq(s, 1, Len(s) - 1))
+                     last == s[Len(s)]
+                 IN IF Has(front, last) THEN front ELSE Append(front, last)
 Names(s) == [i \in DOMAIN s |-> s[i].name]
 HasName(s, n) == \E i \in DOMAIN s : s[i].name = n
 ByName(s, n) == s[CHOOSE i \in DOMAIN s : s[i].name = n]
@@ -55,10 +59,11 @@ FSN(n, sel) == [name |-> n, sel |-> sel]
 
 \* ------------------------------------------------------------------ definitions
 F(name, type) == [name |-> name, type |-> type, args |-> <<>>, ext |-> FALSE, req |-> <<>>, prov |-> <<>>]
-FA(name, type, an, at) == [F(name, type) EXCEPT !.args = <<[name |-> an, type |-> at]>>]
-Ext(f) == [f EXCEPT !.ext = TRUE]
-Req(f, sel) == [f EXCEPT !.req = sel]
-Prov(f, sel) == [f EXCEPT !.prov = sel]
+\* (no EXCEPT in the constructors: TLC does not pre-evaluate and cache constant definitions that go through it)
+FA(name, type, argn, argt) == [name |-> name, type |-> type, args |-> <<[name |-> argn, type |-> argt]>>, ext |-> FALSE, req |-> <<>>, prov |-> <<>>]
+Ext(f) == [name |-> f.name, type |-> f.type, args |-> f.args, ext |-> TRUE, req |-> f.req, prov |-> f.prov]
+Req(f, sel) == [name |-> f.name, type |-> f.type, args |-> f.args, ext |-> f.ext, req |-> sel, prov |-> f.prov]
+Prov(f, sel) == [name |-> f.name, type |-> f.type, args |-> f.args, ext |-> f.ext, req |-> f.req, prov |-> sel]
 Key(sel) == [sel |-> sel, res |-> TRUE]
 KeyNR(sel) == [sel |-> sel, res |-> FALSE]           \* @key(resolvable: false)
 
